@@ -167,7 +167,38 @@ def pre_indent_affine(facts, reach):
     return True, "%d calls of indented(): constant or parameter + constant" % n
 
 
+def pre_unparsed_filter(facts, reach):
+    """XmlUnparsedEntity::new is only called on entities that passed `filter(|v| .. notation_name.is_some())`."""
+    n = 0
+    for f in facts.fns.values():
+        if f["crate"] != "xml_info" or "body" not in f or "::tests::" in f["path"]:
+            continue
+        for m in walk(f["body"]):
+            if m.get("k") == "MethodCall" and m["m"] == "map" and m.get("args") and \
+                    any(c.get("k") == "Call" and str(c["f"].get("path", "")).endswith("XmlUnparsedEntity::new") for c in walk(m["args"][0])):
+                n += 1
+                r = m.get("recv")
+                ok = False
+                while isinstance(r, dict) and r.get("k") == "MethodCall":
+                    if r["m"] == "filter" and r.get("args") and \
+                            any(x.get("k") == "MethodCall" and x["m"] == "is_some" and
+                                any(y.get("k") == "Field" and y.get("name") == "notation_name" for y in walk(x.get("recv", {})))
+                                for x in walk(r["args"][0])):
+                        ok = True
+                    r = r.get("recv")
+                if not ok:
+                    return False, "%s maps XmlUnparsedEntity::new over entities that were not filtered by notation_name.is_some()" % f["path"]
+            elif m.get("k") == "Call" and str(m["f"].get("path", "")).endswith("XmlUnparsedEntity::new"):
+                pass
+    calls = sum(1 for f in facts.fns.values() if f["crate"] in ("xml_info", "xml_dom") and "body" in f and "::tests::" not in f["path"]
+                for m in walk(f["body"]) if m.get("k") == "Call" and str(m["f"].get("path", "")).endswith("XmlUnparsedEntity::new"))
+    if n == 0 or calls != n:
+        return False, "%d calls of XmlUnparsedEntity::new, %d of them in a filtered map" % (calls, n)
+    return True, "%d call site(s), each behind filter(notation_name.is_some())" % n
+
+
 PRECONDITIONS = {
+    "unparsed_filter": pre_unparsed_filter,
     "indent_affine": pre_indent_affine,
     "remove_after_kind_test": pre_remove_after_kind_test,
     "xpath_tokens": pre_xpath_tokens,
@@ -192,6 +223,13 @@ def r(key, reason, pre=None):
 for ty in ("XmlComment", "XmlElement", "XmlEntity", "XmlNotation", "XmlProcessingInstruction", "XmlUnparsedEntity"):
     r("xml_info::<%s as IndentedDisplay>::indented|alloc|repeat#1" % ty,
       "the indentation string has `indent` bytes and indent <= 4 x nesting depth of the tree being printed", "indent_affine")
+
+# ---- unparsed entities
+r("xml_info::XmlUnparsedEntity::new|unwrap|unwrap<-notation_name#1", "only entities with a notation name reach the constructor", "unparsed_filter")
+r("xml_info::XmlUnparsedEntity::new|unwrap|unwrap<-system_identifier#1",
+  "an entity has a notation name only when it was declared with ExternalID NDataDecl ([73] EntityDef, [76] NDataDecl), and an "
+  "ExternalID always has a system literal ([75]); only such entities reach the constructor", "unparsed_filter")
+r("xml_info::notation|vec-index|remove<-collect#1", "`matches.remove(0)` in the arm `1 =>` of `match matches.len()`")
 
 # ---- radix is 10 or 16
 for k in ("xml_info::<XmlCharReference as std::fmt::Display>::fmt|panic|unreachable!#1",
